@@ -1079,8 +1079,10 @@ def _check_reindent(T, out, text):
                 ctx.pop()
                 between.pop()
                 continue
-            if not all(c in ('top', 'sub') for c in ctx):
+            if not all(c in ('top', 'sub', 'case') for c in ctx):
                 continue
+            if 'case' in ctx and n not in ('AND', 'OR', 'BETWEEN'):
+                continue      # inside CASE .. END only AND / OR (outside BETWEEN) are clause keywords of the statement
             if n == 'BETWEEN':
                 between[-1] = True
                 continue
